@@ -55,8 +55,9 @@ def make_listener_class(mask, events):
             def cb(self, *a, nm=nm):
                 if nm == "OnEndIteration":
                     pts = a[0] if a else []
+                    # third field: the list object itself - a listener may keep what it was given and read it later
                     events.append((nm, [(p.GetX(), tuple(np.asarray(p.GetY().floatVariables).tolist()), p.GetZ())
-                                        for p in pts]))
+                                        for p in pts], pts))
                 elif nm == "OnMethodStop":
                     sol = a[1] if len(a) > 1 else None
                     events.append((nm, sol, None if sol is None else
@@ -214,6 +215,16 @@ def contract_case(task):
             vals = [v for _, v in p.log]
             if st[0][2] != (total, min(vals)):
                 msgs.append(f"{ctx}: OnMethodStop saw (trials, best value) = {st[0][2]}, final is {(total, min(vals))}")
+    # what the listener was given stays what it was: the lists kept from every notification, read after the run
+    for j, e in enumerate([e for e in events if e[0] == "OnEndIteration"]):
+        try:
+            now = [(q.GetX(), tuple(np.asarray(q.GetY().floatVariables).tolist()), q.GetZ()) for q in e[2]]
+        except Exception as ex:
+            now = f"unreadable ({type(ex).__name__}: {ex})"
+        if now != e[1]:
+            msgs.append(f"{ctx}: the list of new trials handed to OnEndIteration number {j + 1} read {e[1]} inside the "
+                        f"callback and reads {now} after the run")
+            break
     nev = len([e for e in events if e[0] == "eval"])
     if nev != max(pre, max(1, pre + extra)):
         msgs.append(f"{ctx}: {nev} trials performed, expected {max(pre, max(1, pre + extra))}")
